@@ -35,7 +35,7 @@ class X:
         return show(self)
 
 
-TOK = re.compile(r'\s*(?:(\d+\.\d*(?:[eE][-+]?\d+)?|\.\d+(?:[eE][-+]?\d+)?|\d+[eE][-+]?\d+|\d+)|([A-Za-z_$][A-Za-z_0-9$]*(?:::[A-Za-z_][A-Za-z_0-9]*)*)|(<==>|==>|\|\||&&|==|!=|<=|>=|[-+*/%<>!()\[\].,?:]))')
+TOK = re.compile(r'\s*(?:(\d+\.\d*(?:[eE][-+]?\d+)?|\.\d+(?:[eE][-+]?\d+)?|\d+[eE][-+]?\d+|\d+)|([A-Za-z_$][A-Za-z_0-9$]*(?:::[A-Za-z_][A-Za-z_0-9]*)*)|(<==>|==>|\|\||&&|==|!=|<=|>=|[-+*/%<>!()\[\].,?:])|"([^"]*)")')
 
 
 def tokenize(s):
@@ -48,7 +48,8 @@ def tokenize(s):
             raise SpecError('cannot tokenize at: %r' % s[i:i + 30])
         if m.group(1) is not None: out.append(('num', m.group(1)))
         elif m.group(2) is not None: out.append(('id', m.group(2)))
-        else: out.append(('op', m.group(3)))
+        elif m.group(3) is not None: out.append(('op', m.group(3)))
+        else: out.append(('str', m.group(4)))
         i = m.end()
     return out
 
@@ -160,6 +161,8 @@ class Parser:
             if tk[1] == 'true': return X('bool', v=True)
             if tk[1] == 'false': return X('bool', v=False)
             return X('name', name=tk[1])
+        if tk[0] == 'str':
+            return X('strlit', v=tk[1])
         if tk[1] == '(':
             e = self.iff(); self.eat(')')
             return e
@@ -173,6 +176,7 @@ def parse_expr(text):
 def show(e):
     k = e.k
     if k == 'num': return e.text
+    if k == 'strlit': return '"%s"' % e.v
     if k == 'bool': return 'true' if e.v else 'false'
     if k == 'name': return e.name
     if k == 'field': return '%s.%s' % (show(e.base), e.name)
@@ -191,7 +195,7 @@ def subst(e, m):
     k = e.k
     if k == 'name':
         return m.get(e.name, e)
-    if k in ('num', 'bool'): return e
+    if k in ('num', 'bool', 'strlit'): return e
     if k == 'field': return X('field', base=subst(e.base, m), name=e.name)
     if k == 'index': return X('index', base=subst(e.base, m), idx=subst(e.idx, m))
     if k == 'un': return X('un', op=e.op, e=subst(e.e, m))
@@ -253,6 +257,7 @@ class FuncSpec:
         self.uses_after = {}
         self.ghost_state = []
         self.globals = []
+        self.externs = set()
 
 
 class Lemma:
@@ -293,7 +298,7 @@ class SpecDB:
             return self.expand(subst(body, dict(zip(ps, args))), depth + 1)
         if k == 'name' and e.name in self.defines and not self.defines[e.name][0]:
             return self.expand(self.defines[e.name][1], depth + 1)
-        if k in ('num', 'bool', 'name'): return e
+        if k in ('num', 'bool', 'name', 'strlit'): return e
         if k == 'field': return X('field', base=self.expand(e.base, depth), name=e.name)
         if k == 'index': return X('index', base=self.expand(e.base, depth), idx=self.expand(e.idx, depth))
         if k == 'un': return X('un', op=e.op, e=self.expand(e.e, depth))
@@ -385,6 +390,8 @@ class SpecDB:
                 elif head == 'ghost':
                     t, n = rest.split()
                     ctx.ghosts.append((t, n))
+                elif head == 'extern':
+                    ctx.externs.update(rest.split())
                 elif head == 'global':
                     t, n = rest.split()
                     ctx.globals.append((t, n))
